@@ -199,8 +199,11 @@ def unit_param(u, rec):
         rec.dim("parameter", pname)
         # differentiate at the middle value, and at exactly 0 where zero is in the lattice (statically skipped zero terms must still be differentiable)
         p0s = sorted({float(vals[1])} | ({0.0} if 0.0 in [float(v) for v in vals] else set()))
-        for p0, order in [(a, b) for a in p0s for b in (tuple(u["orders"]) if has_order else (0,))]:
-            for bname, x in pts.items():
+        full = [(a, b, True) for a in p0s for b in (tuple(u["orders"]) if has_order else (0,))]
+        # every other order 0-4: forward/reverse finiteness and adjointness (no finite differences) at the first base point
+        light = [(p0s[0], b, False) for b in ((0, 1, 2, 3, 4) if has_order else ()) if b not in u["orders"]]
+        for p0, order, with_fd in full + light:
+            for bname, x in (pts.items() if with_fd else list(pts.items())[:1]):
                 info = dict(parameter=pname, p0=p0, order=order, base=bname)
                 F = lambda p: make(pname, p, order)(x)
                 rec.count(states=1, transitions=4, traces=1)
@@ -215,12 +218,13 @@ def unit_param(u, rec):
                     continue
                 if not rec.check(bool(np.all(np.isfinite(dy))), f"C07/param_finite/{name}/{pname}", "derivative w.r.t. a PDE coefficient is not finite where the step is finite", **info):
                     continue
-                hh = 1e-5 * max(1.0, abs(p0))
-                fd1 = (np.asarray(F(p0 + hh)) - np.asarray(F(p0 - hh))) / (2 * hh)
-                fd2 = (np.asarray(F(p0 + hh / 2)) - np.asarray(F(p0 - hh / 2))) / hh
                 sc = max(1.0, float(np.max(np.abs(dy))))
-                rec.close(float(np.max(np.abs(dy - fd2))), 20 * float(np.max(np.abs(fd1 - fd2))) + 1e-7 * sc, f"C07/param_finite_difference/{name}/{pname}",
-                          "derivative w.r.t. a PDE coefficient / dt disagrees with central finite differences", **info)
+                if with_fd:
+                    hh = 1e-5 * max(1.0, abs(p0))
+                    fd1 = (np.asarray(F(p0 + hh)) - np.asarray(F(p0 - hh))) / (2 * hh)
+                    fd2 = (np.asarray(F(p0 + hh / 2)) - np.asarray(F(p0 - hh / 2))) / hh
+                    rec.close(float(np.max(np.abs(dy - fd2))), 20 * float(np.max(np.abs(fd1 - fd2))) + 1e-7 * sc, f"C07/param_finite_difference/{name}/{pname}",
+                              "derivative w.r.t. a PDE coefficient / dt disagrees with central finite differences", **info)
                 # reverse mode: d/dp <w, F(p)> == <w, dF/dp>
                 w = rng.uniform(-1, 1, size=y.shape)
                 try:
